@@ -90,6 +90,34 @@ def generate(rng, tier, seed):
                     c.pred("retail MAC = ISO 9797-1 algorithm 3 (related keys)",
                            lambda rep, r=r, i=i: None if (r.ok and rep[i] == "ok\t" + enc_b(r.value)) else f"{r.value.hex() if r.ok else r.err} != {rep[i]}")
                     yield c
+    # special key values (constant bytes, DES weak / semi-weak components in every position, text-like keys): "for every key"
+    lim = 14 if tier == "quick" else None
+    for ks in (8, 16, 24):
+        for key in core.special_keys(rng, ks, limit=lim):
+            data, padding = rb(rng, rng.choice((0, 7, 8, 20))), rng.choice((1, 2, 3))
+            c = Case("cbc_mac:des:special-key", {"key": key.hex()[:16], "len": len(data), "padding": padding})
+            r = c.call("mac.generate_cbc_mac", key, data, padding, None, A.DES)
+            i = c.line(f"spec.mac1\ta:des\t{enc_b(key)}\ti:{padding}\t{enc_b(data)}\ti:8")
+            c.pred("CBC-MAC = ISO 9797-1 algorithm 1 (special key values)",
+                   lambda rep, r=r, i=i: None if (r.ok and rep[i] == "ok\t" + enc_b(r.value)) else f"{r.value.hex() if r.ok else r.err} != {rep[i]}")
+            yield c
+            other = rb(rng, rng.choice((8, 16, 24)))
+            for k1, k2 in ((key, other), (other, key), (key, key)):
+                c = Case("retail_mac:special-key", {"k1": k1.hex()[:16], "k2": k2.hex()[:16], "padding": padding})
+                r = c.call("mac.generate_retail_mac", k1, k2, data, padding, None)
+                i = c.line(f"spec.mac3\t{enc_b(k1)}\t{enc_b(k2)}\ti:{padding}\t{enc_b(data)}\ti:8")
+                c.pred("retail MAC = ISO 9797-1 algorithm 3 (special key values)",
+                       lambda rep, r=r, i=i: None if (r.ok and rep[i] == "ok\t" + enc_b(r.value)) else f"{r.value.hex() if r.ok else r.err} != {rep[i]}")
+                yield c
+    for ks in (16, 24, 32):
+        for key in core.special_keys(rng, ks, des=False):
+            data, padding = rb(rng, rng.choice((0, 15, 16, 40))), rng.choice((1, 2, 3))
+            c = Case("cbc_mac:aes:special-key", {"key": key.hex()[:16], "len": len(data), "padding": padding})
+            r = c.call("mac.generate_cbc_mac", key, data, padding, None, A.AES)
+            i = c.line(f"spec.mac1\ta:aes\t{enc_b(key)}\ti:{padding}\t{enc_b(data)}\ti:16")
+            c.pred("CBC-MAC = ISO 9797-1 algorithm 1 (special key values)",
+                   lambda rep, r=r, i=i: None if (r.ok and rep[i] == "ok\t" + enc_b(r.value)) else f"{r.value.hex() if r.ok else r.err} != {rep[i]}")
+            yield c
     # oracle-free identity: one-block message (padding 1, 8 bytes): MAC = E_k1(D_k2(E_k1(D1)))
     for _ in range(60 * reps):
         k1, k2, d1 = rb(rng, rng.choice((8, 16, 24))), rb(rng, rng.choice((8, 16, 24))), rb(rng, 8)
